@@ -138,7 +138,7 @@ pub fn frame<S: Shape, const CAP: usize>() {
         Err(err) => assert!(err.kind == ErrorKind::InsufficientSize, "a prefix of a valid message is reported as InsufficientSize"),
     }
     kani::cover!(n > e, "w:extended");
-    kani::cover!(c > 0 && d.c.n >= 1, "w:nontrivial-cut");
+    kani::cover!((c > 0 || e <= 1) && d.c.n >= 1, "w:nontrivial-cut");
 }
 
 pub fn errpos<S: Shape, const CAP: usize>() {
